@@ -13,7 +13,7 @@ use crate::spec::{ref_path_match, Item, Spec, Ty};
 pub static DEF: PropDef = PropDef {
     id: "C13",
     level: "exploration",
-    rule: "each case runs five sub-monitors on the real iterator. (a) single-fault documents: a valid document (reference encoded, known and unknown sizes) receives exactly one fault of a known class at a random eligible element — id replaced by an id outside the specification / a known element inserted under a known-size parent that does not allow it / a leaf's declared size enlarged to overrun its known-size parent / a size limit set just below the first element that exceeds it — and the strict parse must yield exactly the items before the faulty element and then that class's error kind carrying the element's offset and id, with no raw tag among the Ok items; (c) the same document parsed while tolerating each OTHER single class must fail identically; with the faulty class tolerated that error kind must not occur; (b) on all inputs of (e), a parse that tolerates class X must never end in X's error kind; (d) a header declaring 4*10^9+1 bytes (5-8 byte size fields, at root, inside known- and unknown-size masters) is rejected with InvalidTagSize under all 8 tolerance settings while the size limit was never touched; (e) arbitrary inputs that start at a root element (valid, truncated, mutated, adversarial) are parsed under all 8 tolerance subsets: the strict Ok items (values and offsets) must be a prefix of every more tolerant parse. distinct = (fault class x tolerated set) pairs and (input kind x first strict error kind); non-trivial iff the fault is not at the first element / the strict parse has >= 2 items.",
+    rule: "each case runs five sub-monitors on the real iterator. (a) single-fault documents: a valid document (reference encoded, known and unknown sizes) receives exactly one fault of a known class at a random eligible element — id replaced by an id outside the specification / a known element inserted under a known-size parent that does not allow it / a leaf's declared size enlarged to overrun its known-size parent / a size limit set just below the first element that exceeds it — and the strict parse must yield exactly the items before the faulty element and then that class's error kind carrying the element's offset and id, with no raw tag among the Ok items; (c) the same document parsed while tolerating each OTHER single class must fail identically; with the faulty class tolerated that error kind must not occur; (b) on all inputs of (e), a parse that tolerates class X must never end in X's error kind; (d) a header declaring 4*10^9+1 bytes (5-8 byte size fields, at root, inside known- and unknown-size masters) is rejected with InvalidTagSize under all 8 tolerance settings while the size limit was never touched, and once the limit is removed (None) or raised the same master must be accepted; (e) arbitrary inputs that start at a root element (valid, truncated, mutated, adversarial) are parsed under all 8 tolerance subsets: the strict Ok items (values and offsets) must be a prefix of every more tolerant parse. distinct = (fault class x tolerated set) pairs and (input kind x first strict error kind); non-trivial iff the fault is not at the first element / the strict parse has >= 2 items.",
     assumptions: &["reference encoder/layout", "hierarchy faults are inserted under known-size parents (or at root level) so that no unknown-size closing semantics can legitimise them", "in (d) a runaway allocation is caught by the allocator ceiling (1 GiB) and reported by the supervisor"],
     cases_quick: 150_000,
     cases_thorough: 2_000_000,
@@ -330,6 +330,29 @@ fn run(c: &mut Case) {
                     format!("a declared size of {} bytes must be rejected with InvalidTagSize while the default limit is in force; got {} after {} items", big, p.end.short(), p.items.len()),
                     J::obj().set("bytes", J::hex(&bytes)).set("config", cfg.to_json()).set("parse", p.to_json(10)),
                 );
+            }
+        }
+    }
+    // ---------------------------------------------------------------- (d'): a limit that was removed (None) / changed is really gone
+    {
+        let spec = gen::z_kitchen(false);
+        spec.install();
+        let w = c.rng.urange(5, 8);
+        let big: u64 = *c.rng.pick(&[4_000_000_001u64, 1 << 33, 1 << 40]);
+        let w = w.max(crate::refcodec::min_size_width(big).unwrap());
+        // a master at root level: no allocation is involved, only the size check
+        let mut bytes = id_bytes(0x18538067);
+        bytes.extend(enc_vint(big, w));
+        bytes.extend([0xEC, 0x82, 0x01, 0x02]);
+        let steps: [(&str, MaxSz); 2] = [("None", MaxSz::Set(None)), ("Some(2^41)", MaxSz::Set(Some(1usize << 41)))];
+        for (name, ms) in steps {
+            let cfg = RCfg { allow: c.rng.below(8) as u8, buffered: vec![], capacity: None, max_size: ms, eof_end: true };
+            let p = parse_slice(&bytes, &cfg);
+            c.eval();
+            c.count("removed_limit_probes");
+            let ok = p.items.first().map(|(i, _)| *i == Item::Start(0x18538067)).unwrap_or(false) && !matches!(&p.end, Ev::Err(ErrRec::InvalidTagSize { .. }));
+            if !ok {
+                c.violation(format!("C13/limit-not-changed/{}", name), format!("after set_max_allowable_tag_size({}) a master declaring {} bytes was still handled as {}", name, big, p.end.short()), J::obj().set("bytes", J::hex(&bytes)).set("config", cfg.to_json()).set("parse", p.to_json(8)));
             }
         }
     }
